@@ -26,6 +26,12 @@ def bootstrap():
         return ckl
     _DONE = True
     sys.dont_write_bytecode = True
+    # interpreters bind the process's stdin; generated programs may read it
+    # (readln(), for l in stdin ...) and must see end of input, not a terminal
+    try:
+        sys.stdin = open(os.devnull, encoding="utf-8")
+    except OSError:
+        pass
     if SRC in sys.path:
         sys.path.remove(SRC)
     sys.path.insert(0, SRC)
